@@ -32,6 +32,10 @@ pub struct Program {
     /// attacker's line i so that the two handlers interleave at lock granularity
     #[serde(default)]
     pub companion: Vec<String>,
+    /// after every line the node's periodic background task (snapshots of the queued databases) runs once:
+    /// what a command queued must not kill that service thread either
+    #[serde(default)]
+    pub ticks: bool,
 }
 
 pub const WORDS: [&str; 46] = [
@@ -42,21 +46,32 @@ pub const WORDS: [&str; 46] = [
     "election win", "debug force-election", "rp 1", "replicate-since-to",
 ];
 
-const TOKENS: [&str; 44] = [
+const TOKENS: [&str; 50] = [
     "", "x", "k", "-1", "0", "1", "2147483647", "-2147483648", "2147483648", "18446744073709551615", "18446744073709551616",
     "340282366920938463463374607431768211455", "340282366920938463463374607431768211456", "$$token", "$$x", "$connections", "$conflicts",
     ";", "a;b", "ünï", "|", "true", "false", "*", "q", "tokq", "nosuch", "10.0.0.9:3014", "10.0.0.1:3014", "candidate", "win", "alive",
     "pending-ops", "list-dbs", "rwix", "r k*|w *", "abc def", "q|nosuch", "1e9", "+5", "nosuch|q", "nosuch|q|r", "q|nosuch|r", "q|r",
+    "a/b", "../x", "x.keys", "c-nun.data", "arbiter", "a1",
 ];
 
 /// well-formed lines that take the less common lock paths (database switch, creation, named snapshots)
-const LINES: [&str; 18] = [
+const LINES: [&str; 30] = [
     "use-db r tokr", "use-db q tokq", "create-db c1 t1", "create-db c2 t2 newer", "snapshot false q r", "snapshot true q", "snapshot false",
     "keys", "set k v", "remove k", "increment n 1", "watch k", "unwatch-all", "create-user u1 pw", "debug list-dbs", "cluster-state",
     "replicate-since 10.0.0.1:3014 5", "replicate-since 10.0.0.1:3014 0",
+    "set-safe k 2147483647 v", "set-safe k 2147483646 v", "snapshot false q", "create-db a/b t", "snapshot false a/b", "create-db a1 ta arbiter",
+    "use-db a1 ta", "arbiter", "set-safe k 0 w", "set-safe k -1 w", "snapshot true q r", "remove n",
 ];
 
 fn gen_line(rng: &mut Rng) -> String {
+    if rng.chance(1, 40) {
+        // a replication envelope inside a replication envelope inside ... (each level is handled by a recursive call)
+        let depth = [2u64, 9, 120, 1_000, 4_000, 20_000][rng.below(6) as usize];
+        let inner = ["get x", "set k v", "keys", "zzz", ""][rng.below(5) as usize];
+        // (the handler strips line feeds around what an envelope carries: over WebSocket / HTTP a level may start with one)
+        let level = if rng.chance(1, 4) { "rp 1 \n" } else { "rp 1 " };
+        return format!("{}{}", level.repeat(depth as usize), inner);
+    }
     if rng.chance(1, 4) {
         return LINES[rng.below(LINES.len() as u64) as usize].to_string();
     }
@@ -84,7 +99,7 @@ fn gen_concurrent_admins(rng: &mut Rng) -> Program {
     let pick = |rng: &mut Rng| LINES[rng.below(LINES.len() as u64) as usize].to_string();
     let lines: Vec<String> = (0..n).map(|_| pick(rng)).collect();
     let companion: Vec<String> = (0..n).map(|_| pick(rng)).collect();
-    Program { via: Via::Tcp, admin: true, select_db: true, lines, raw_hex: vec![], repeat: 1, companion }
+    Program { via: Via::Tcp, admin: true, select_db: true, lines, raw_hex: vec![], repeat: 1, companion, ticks: rng.chance(1, 3) }
 }
 
 fn gen(rng: &mut Rng) -> Program {
@@ -96,7 +111,7 @@ fn gen(rng: &mut Rng) -> Program {
     let n = rng.range(1, 4) as usize;
     let lines: Vec<String> = (0..n).map(|_| gen_line(rng)).collect();
     let mut raw_hex = Vec::new();
-    if via == Via::Tcp && rng.chance(1, 8) {
+    if via != Via::Http && rng.chance(1, 8) {
         let len = rng.range(1, 40) as usize;
         let mut b: Vec<u8> = (0..len).map(|_| rng.below(256) as u8).collect();
         b.push(b'\n');
@@ -104,7 +119,7 @@ fn gen(rng: &mut Rng) -> Program {
     }
     let repeat = if rng.chance(1, 10) { rng.range(101, 260) as u32 } else { 1 };
     let companion: Vec<String> = if rng.chance(1, 2) { (0..n).map(|_| gen_line(rng)).collect() } else { vec![] };
-    Program { via, admin: rng.chance(1, 2), select_db: rng.chance(2, 3), lines, raw_hex, repeat, companion }
+    Program { via, admin: rng.chance(1, 2), select_db: rng.chance(2, 3), lines, raw_hex, repeat, companion, ticks: rng.chance(1, 4) }
 }
 
 struct Outcome {
@@ -188,6 +203,11 @@ fn execute(prog: Program) -> Outcome {
     let mut check = |out: &mut Outcome, line: &str, n: u64| -> bool {
         // give the node time to work (elections started by admin commands take a while)
         sleep_ms(20);
+        if prog.ticks {
+            // a tick that does not come back is a dead (panicked) or stuck background thread: the panic list / the
+            // probe below says which
+            w.declutter_tick(0, 3_000);
+        }
         let panics = with(|k| k.panics.clone());
         if panics.len() > seen_panics {
             for p in panics[seen_panics..].iter() {
@@ -243,6 +263,7 @@ fn execute(prog: Program) -> Outcome {
             }
             let mut n = 1;
             for (i, l) in prog.lines.iter().enumerate() {
+                set_abort_context(&format!("tcp:{}{}", command_word(l), prog.companion.get(i).map(|c| format!("+{}", command_word(c))).unwrap_or_default()));
                 for _ in 0..prog.repeat {
                     c.send_line(l);
                 }
@@ -274,12 +295,21 @@ fn execute(prog: Program) -> Outcome {
             }
             let mut n = 1;
             for (i, l) in prog.lines.iter().enumerate() {
+                set_abort_context(&format!("ws:{}{}", command_word(l), prog.companion.get(i).map(|c| format!("+{}", command_word(c))).unwrap_or_default()));
                 for _ in 0..prog.repeat.min(120) {
                     c.send(l);
                 }
                 companion_send(i);
                 n += 1;
                 if !check(&mut out, l, n) {
+                    return out;
+                }
+            }
+            for h in prog.raw_hex.iter() {
+                let bytes: Vec<u8> = (0..h.len() / 2).map(|i| u8::from_str_radix(&h[2 * i..2 * i + 2], 16).unwrap_or(0)).collect();
+                c.send_bytes(&bytes);
+                n += 1;
+                if !check(&mut out, &format!("<binary frame {}>", h), n) {
                     return out;
                 }
             }
@@ -292,6 +322,7 @@ fn execute(prog: Program) -> Outcome {
             let mut n = 1;
             for (i, l) in prog.lines.iter().enumerate() {
                 let b = if body.is_empty() { l.clone() } else { format!("{};{}", body, l) };
+                set_abort_context(&format!("http:{}{}", command_word(l), prog.companion.get(i).map(|c| format!("+{}", command_word(c))).unwrap_or_default()));
                 companion_send(i);
                 let _ = http_request(&http, &b, 3_000);
                 n += 1;
@@ -346,8 +377,11 @@ impl Property for C10 {
         let mut cfg = SimConfig::new(ctx.seed ^ 0xc10);
         cfg.policy = policy_for(Rng::new(ctx.seed ^ 0x9011c7).next_u64());
         cfg.trace = ctx.trace;
+        // what std gives a spawned thread (the connection handlers): a recursion that overflows it here overflows it there
+        cfg.stack_size = 2 << 20;
         let p2 = prog.clone();
         let outcome = run_sim(cfg, move || execute(p2));
+        set_abort_context("");
         clear_registry();
         let mut rep = RunReport { seed: ctx.seed, scenario: scenario.to_string(), ..Default::default() };
         rep.program = serde_json::to_value(&prog).unwrap();
@@ -398,6 +432,25 @@ impl Property for C10 {
             let mut q = p.clone();
             q.repeat = 1;
             out.push(serde_json::to_value(&q).unwrap());
+        }
+        if p.ticks {
+            let mut q = p.clone();
+            q.ticks = false;
+            out.push(serde_json::to_value(&q).unwrap());
+        }
+        if !p.companion.is_empty() {
+            let mut q = p.clone();
+            q.companion.clear();
+            out.push(serde_json::to_value(&q).unwrap());
+        }
+        // fewer levels of nesting
+        for i in 0..p.lines.len() {
+            let depth = p.lines[i].matches("rp 1 ").count();
+            if depth > 2 && p.lines[i].starts_with("rp 1 rp 1 ") {
+                let mut q = p.clone();
+                q.lines[i] = format!("{}{}", "rp 1 ".repeat(depth / 2), p.lines[i].trim_start_matches("rp 1 "));
+                out.push(serde_json::to_value(&q).unwrap());
+            }
         }
         for (flag, val) in [(0, false), (1, false)] {
             let mut q = p.clone();
